@@ -128,6 +128,12 @@ func asNumber(t iterator, o interface{}) float64 {
 		}
 	case float64:
 		return typ
+	case bool:
+		// number(true()) is 1, number(false()) is 0
+		if typ {
+			return 1
+		}
+		return 0
 	case string:
 		v, err := strconv.ParseFloat(typ, 64)
 		if err == nil {
